@@ -159,6 +159,9 @@ func runC12(cases []string, out *bufio.Writer, args []string) {
 			closed = false
 		}
 		gateMu.Unlock()
+		if lg == "root" { // the process has a second handle, bound to another logger: what goes through it must arrive there and only there
+			hLg.Write([]byte("THROUGH-THE-OTHER-HANDLE;"))
+		}
 		done := make(chan struct{})
 		go func() { log.Destroy(); close(done) }()
 		if !waitSignal(done, 10*time.Second) {
@@ -178,6 +181,20 @@ func runC12(cases []string, out *bufio.Writer, args []string) {
 			}
 			parts = append(parts, fmt.Sprintf("a%d=%s", i, strings.Join(got, ",")))
 		}
-		fmt.Fprintf(out, "n=%s same=%s %s\n", strings.Join(ns, ","), same, strings.Join(parts, " "))
+		sameNow := same
+		if lg == "root" {
+			o := snap["other"]
+			if len(o) != 1 || string(o[0].Data) != "THROUGH-THE-OTHER-HANDLE;" {
+				sameNow = "0-second-handle-misrouted"
+			}
+			for i := range refs {
+				for _, it := range snap[fmt.Sprintf("a%d", i)] {
+					if string(it.Data) == "THROUGH-THE-OTHER-HANDLE;" {
+						sameNow = "0-second-handle-misrouted"
+					}
+				}
+			}
+		}
+		fmt.Fprintf(out, "n=%s same=%s %s\n", strings.Join(ns, ","), sameNow, strings.Join(parts, " "))
 	}
 }
